@@ -54,9 +54,11 @@ WAll(x, cs, cps) == \E c \in cs, caps \in cps : \E v \in VarAll(c) : x = One(Wir
 WSome(x, cs, cps) == \E c \in cs, caps \in cps : \E v \in VarSome(c) : x = One(Wire(c, caps, v))
 
 \* ---- sequential case spaces (one pusher) ------------------------------------------------
-\* quick: one command x every capability set x every failure variant; two commands (new values
-\* 0 / C / M) x three capability sets x three variants
-WireQuick(x) == WAll(x, Cmd1(OldV, NewV), SUBSET AllCaps) \/ WSome(x, Cmd2(OldV, {0, 3, 4}), CapsFew)
+\* quick: one command x (every capability set, or three capability sets x every failure variant);
+\* two commands (new values 0 / C / M) x three capability sets x three variants
+WireQuick(x) == \/ WAll(x, Cmd1(OldV, NewV), CapsFew)
+                \/ \E c \in Cmd1(OldV, NewV), caps \in SUBSET AllCaps : x = One(Wire(c, caps, Plain))
+                \/ WSome(x, Cmd2(OldV, {0, 3, 4}), CapsFew)
 \* negative controls: small, contains a stale command, a missing object and an atomic pair
 WireNeg(x) == WAll(x, Cmd1(OldV, NewV) \cup Cmd2({1, 2}, {3}), CapsRS)
 \* thorough: everything x everything
@@ -100,4 +102,19 @@ RaceMC3(x) ==
 RaceLocalMC(x) ==
     \E c \in LCmd1({0, 1, 3, 4}) \cup LCmd2({0, 3, 4}), a \in BOOLEAN, c2 \in Cmd1({0, 1, 2}, {0, 2, 3}) :
         x = Two(Local(c, a), Wire(c2, {"report-status"}, Plain))
+
+\* ---- pushes a C git client can produce -----------------------------------------------------
+\* old values are what the server advertised (= the initial state, hence the reference to `ini`,
+\* which Init fixes before it evaluates PushIn); staleness arises only from a racing pusher whose
+\* ref operation lands between the advertisement and the commands (schedule "pusher 2 first").
+\* git sends the commands for refs the server advertised first, then the ones it creates.
+GitCmds == {<<Cmd(1, ini.refs[1], n)>> : n \in {0, 2, 3} \ {ini.refs[1]}}
+           \cup {IF ini.refs[1] = 0 THEN <<Cmd(2, ini.refs[2], m), Cmd(1, 0, n)>>
+                                    ELSE <<Cmd(1, ini.refs[1], n), Cmd(2, ini.refs[2], m)>> :
+                    n \in {0, 2, 3} \ {ini.refs[1]}, m \in {0, 3}}
+GitCaps(at) == {"report-status", "side-band-64k"} \cup (IF at THEN {"atomic"} ELSE {})
+GitVars(c) == {Plain} \cup (IF Len(c) = 2 THEN {<<TRUE, {2}, FALSE>>} ELSE {})
+GitRacer == {Wire(<<Cmd(1, ini.refs[1], n)>>, {"report-status"}, Plain) : n \in {0, 2} \ {ini.refs[1]}}
+GitSolo(x) == \E c \in GitCmds, at \in BOOLEAN : \E v \in GitVars(c) : x = One(Wire(c, GitCaps(at), v))
+GitRace(x) == \E c \in GitCmds, at \in BOOLEAN, b \in GitRacer : \E v \in GitVars(c) : x = Two(Wire(c, GitCaps(at), v), b)
 =============================================================================
